@@ -504,7 +504,7 @@ def run(ctx):
     cfg = make_cfg(rng, force=dict(struct="da1", B=3))
     data, m = fit_model(cfg)
     b1, b2 = run_boot(m, 3, 11), run_boot(m, 3, 12)
-    if np.allclose(b1.data["explained_variance"].values, b2.data["explained_variance"].values):
+    if np.allclose(b1.data["explained_variance"].values, b2.data["explained_variance"].values, rtol=1e-9, atol=0.0):
         ctx.violation("C20:seed-ignored", "seeds 11 and 12 give the same members", dict(kind="seed", cfg=cfg))
     try:
         run_boot(m, 1, -1)
